@@ -24,7 +24,14 @@ class ModuleInfo:
             if isinstance(node, (ast.FunctionDef,)):
                 self.functions[node.name] = node
             elif isinstance(node, ast.ClassDef):
-                self.classes[node.name] = ClassInfo(self, node)
+                ci = ClassInfo(self, node)
+                self.classes[node.name] = ci
+                # classes registered as proof macros are also reachable as `macro__<registered name>`
+                # (several macro classes of smt/veriT/verit_macro.py share one Python class name)
+                for d in node.decorator_list:
+                    if isinstance(d, ast.Call) and getattr(d.func, 'id', None) == 'register_macro' and d.args \
+                            and isinstance(d.args[0], ast.Constant) and isinstance(d.args[0].value, str):
+                        self.classes['macro__' + d.args[0].value] = ci
             elif isinstance(node, ast.Import):
                 for a in node.names:
                     local = a.asname or a.name.split('.')[0]
